@@ -8,8 +8,10 @@ from harness import core
 from harness.gen import ir as G
 from harness.impl import docir, hops
 
-MODULE = "CddVerif.Properties.C08"
-THEOREMS = ["C08.fixpoint_all_rounds", "C08.setDefaultDoc_idempotent", "C08.extract_keeps_line_when_carried", "C08.baseOf_idempotent",
+MODULE = "CddVerif.Properties.C08Whole"  # imports Properties.C08 (normaliser idempotence) and Properties.C01Whole (whole-docstring round trip)
+WHOLE = ["round1", "round2", "round2_same_text", "hop_round1", "hop_fixpoint", "hop_hop", "all_rounds", "all_rounds_ok", "emit_answers_noWrap", "all_rounds_noWrap",
+         "C08_full_on_domain", "round2_text_differs", "announce_variant_needed", "hop_hop_false_outside", "backtick_type_needed", "outside_domain_still_fixpoint"]
+THEOREMS = ["C08Whole." + t for t in WHOLE] + ["C08.fixpoint_all_rounds", "C08.setDefaultDoc_idempotent", "C08.extract_keeps_line_when_carried", "C08.baseOf_idempotent",
             "C08.wrapOptional_idempotent", "C08.quote_idempotent", "C08.unquote_not_idempotent"]
 TRIGGER_DOCS = ["number of items to keep", "whether to shuffle the data", "list of layer names", "the path to the file", "true if verbose",
                 "a string naming the thing", "integer count of epochs", "One of 'a' or 'b'", "dictionary of options", "the float value"]
@@ -36,6 +38,10 @@ def gen_ir(r, fmt):
         elif k < 0.46:
             p["typ"] = r.choice(["str", "Optional[str]"])
             p["default"] = ""  # the empty string is a legal default
+        elif k < 0.49:
+            # a description that announces its default with one of the other DEFAULTS_TO_VARIANTS phrases
+            p["doc"] = r.choice(["a count. Default value is 3", "the size. Default: 3", "a ratio. Default value is 0.5"])
+            p.pop("default", None)
     if r.random() < 0.3:
         ir["doc"] = r.choice(["Summary line.\n\nLonger description\nover two lines.", "  Indented summary", "Summary"])
     # descriptions that span several lines (a line break inside a parameter's or the return's description is legal input)
@@ -87,6 +93,8 @@ def compare(chk, case, views):
     for k in range(len(views) - 1):
         a, b = views[k], views[k + 1]
         base = {"format": fmt, "style": style, "round": min(k + 1, 2)}
+        if any(("Default value is" in (p.get("doc") or "") or "Default:" in (p.get("doc") or "")) for p in ir["params"].values()):
+            base["announce_variant_doc"] = True  # root-cause marker: a description announces a default with a phrase other than "defaults to"
         if any("\n" in (p.get("doc") or "") for p in list(ir["params"].values()) + list((ir.get("returns") or {}).values())):
             base["multiline_doc"] = True  # root-cause marker: some description of the input spans several lines
         if "raises" in b:
@@ -130,6 +138,8 @@ def compare(chk, case, views):
 def run(chk: core.Check) -> int:
     chk.lean(MODULE, THEOREMS)
     chk.trusted_base += [
+        "Properties/C08Whole.lean: on C01Whole.InDomain the ReST hop emit->parse of the MODEL reaches its fixpoint after one round, for every number of parameters, all flags and every further round (all_rounds); "
+        "the model omits parse_adhoc_doc_for_typ (prose type inference), so against the real code this is claimed for trigger-free descriptions only; the real hop is compared with the model's round by round below",
         "theorems are about the docstring-layer normalisers of lean/CddVerif/Model/Doc.lean (tied to the code by C01's correspondence); the per-format fixpoint itself is evaluated on the real emit -> render -> re-read -> parse pipeline for every format, rounds 1..4",
     ]
     rng = chk.rng
